@@ -279,17 +279,29 @@ impl C16 {
                     _ => "capture",
                 };
                 let mut src = String::from("make c get command(\"simchild\")\n");
-                src += &format!("c.stdout_{}()\n", polname(c["out_pol"].as_u64().unwrap()));
-                src += &format!("c.stderr_{}()\n", polname(c["err_pol"].as_u64().unwrap()));
+                let shape = c["script_shape"].as_u64().unwrap_or(0);
+                // shape 3: the whole configuration happens inside a helper that works on the captured
+                // builder and whose return value nobody reads
+                let ind = if shape == 3 {
+                    src += "do configure() start\n";
+                    "  "
+                } else {
+                    ""
+                };
+                src += &format!("{ind}c.stdout_{}()\n", polname(c["out_pol"].as_u64().unwrap()));
+                src += &format!("{ind}c.stderr_{}()\n", polname(c["err_pol"].as_u64().unwrap()));
                 match c["stdin_pol"].as_u64().unwrap() {
-                    0 => src += "c.stdin_inherit()\n",
-                    1 => src += "c.stdin_null()\n",
-                    _ => src += &format!("c.stdin_text(\"{stdin_text}\")\n"),
+                    0 => src += &format!("{ind}c.stdin_inherit()\n"),
+                    1 => src += &format!("{ind}c.stdin_null()\n"),
+                    _ => src += &format!("{ind}c.stdin_text(\"{stdin_text}\")\n"),
                 }
-                src += &format!("c.timeout_ms({timeout})\n");
+                src += &format!("{ind}c.timeout_ms({timeout})\n");
+                if shape == 3 {
+                    src += "  return 4\nend\nmake configured get configure()\n";
+                }
                 // where the result lives between run() and its use: top level, returned from a function,
                 // or assigned inside a loop body and read after the loop (frame resets in between)
-                match c["script_shape"].as_u64().unwrap_or(0) {
+                match shape {
                     1 => src += "do go(k) start\n  make t get k.run()\n  return t\nend\nmake r get go(c)\nmake pad get \"x\" add to_string(1)\n",
                     2 => src += "make holder get [0]\nmake i get 0\njasi (i small pass 1) start\n  i get i add 1\n  holder[0] get c.run()\n  make pad get \"y\" add to_string(i)\nend\nmake pad2 get \"z\" add to_string(2)\nmake r get holder[0]\n",
                     _ => src += "make r get c.run()\n",
@@ -569,7 +581,7 @@ fn gen_scenario(r: &mut Rng, tier: Tier) -> Value {
         "pipe_cap": pipe_cap, "epipe_die": r.chance(50), "stdin_len": stdin_len, "script": script,
         "faults": faults, "jitter_seed": r.next() >> 1,
         "mode": if r.below(8) == 0 { "direct" } else { "script" },
-        "script_shape": r.pick(&[0u64, 0, 1, 2]),
+        "script_shape": r.pick(&[0u64, 0, 1, 2, 3]),
     })
 }
 
